@@ -295,6 +295,40 @@ def run(ck):
     for i, (ok, key, c, why) in enumerate(ru):
         ck.ob('R-KEY', '%s/%s-%d' % (key, c['name'], i), ok, ck.site(key, c), why, sample={'access': hir.pp(c)[:60]})
     ck.floor('R-KEY', len(ru), 4)
+    # cache writes: a rank stored into the cache must be a computed rank or a rank that was present in the cache (never a default for a missing entry)
+    nw = 0
+    for key, f in facts['fns'].items():
+        if not key.startswith(TREE + '::'):
+            continue
+        for c in hir.calls(f['hir']):
+            is_set = hir.callee(c) == TREE + '::set_rank'
+            is_ins = c.get('k') == 'MethodCall' and c['name'] == 'insert' and hir.place(hir.strip(c['recv'])) and hir.place(hir.strip(c['recv']))[2] == [('f', 'ranks')]
+            if not (is_set or is_ins):
+                continue
+            if key == TREE + '::set_rank':
+                continue      # the setter itself stores its argument
+            nw += 1
+            val = c['args'][1]
+            l = hir.local(val)
+            src = None
+            okv = False
+            if l:
+                for n in hir.nodes(f['hir']):
+                    if n.get('k') == 'Let' and n['pat'].get('k') == 'Bind' and n['pat']['id'] == l[1] and n.get('init') is not None:
+                        src = n['init']
+                    if n.get('k') == 'LetCond' and any(i == l[1] for _n, i in hir.bindings(n['pat'])) and (hir.pat_ctor(n['pat']) or '').endswith('Some'):
+                        i0 = hir.strip(n['init'])
+                        if (hir.callee(i0) == TREE + '::rank') or (i0.get('k') == 'MethodCall' and i0['name'] in ('get', 'copied', 'cloned') and 'ranks' in hir.pp(i0)):
+                            okv = True
+            if src is not None:
+                txt = hir.pp(src)
+                if '.rank()' in txt and 'self.rank(' not in txt:
+                    okv = True      # a freshly computed matrix rank
+                if any(x in txt for x in ('unwrap_or', 'unwrap_or_default', 'unwrap_or_else')) and ('self.rank(' in txt or 'ranks.get' in txt):
+                    okv = False
+            ck.ob('R-CACHE-write', '%s/%s-%d' % (key, 'set_rank' if is_set else 'insert', nw), okv, ck.site(key, c),
+                  'a rank is written into the cache that is neither freshly computed nor taken from a cache entry that was present: `%s` (source `%s`) — a default stored for a missing entry is never corrected, because compute_ranks only fills missing keys' % (hir.pp(c)[:50], hir.pp(src)[:50] if src is not None else hir.pp(val)[:30]))
+    ck.floor('R-CACHE-write', nw, 1)
     flds = dict((n, v) for n, _t, v in (rencap.adt_fields(facts, TREE) or []))
     ck.ob('R-ENCAP', 'DecompTree/ranks-private', flds.get('ranks', '').startswith('Restricted'), TREE, 'the rank cache field is visible outside its module')
     # other writers of ranks
